@@ -250,6 +250,14 @@ def rule_lcg_table(ctx):
   curves = {k.split(".")[-1]: kind for k, kind, _ in curve_table(repo)}
   needed = ("curve", "lcg", "sample_size", "min_signatures", "sliding_window_size", "constants", "w")
   names = set()
+  # sibling agreement: the (c, d) constants of every model were precomputed for one lattice weight; rows of the same kind (normalized or not) share it
+  wvals = {}
+  for el in fac.elts:
+    if isinstance(el, ast.Name) and isinstance(m.consts.get(el.id), ast.Dict):
+      dd = {fold.try_fold(k): v for k, v in zip(m.consts[el.id].keys, m.consts[el.id].values)}
+      if "w" in dd:
+        wvals.setdefault(fold.try_fold(dd.get("normalized")) if "normalized" in dd else None, []).append(fold.try_fold(dd["w"]))
+  wmode = {k: max(set(v), key=v.count) for k, v in wvals.items() if len(v) >= 3}
   for el in fac.elts:
     if not isinstance(el, ast.Name) or el.id not in m.consts or not isinstance(m.consts[el.id], ast.Dict):
       ctx.incomplete(R, "lcg_constants:CONSTANT_FACTORY", ast.unparse(el), "entry is not a module-level dict literal")
@@ -277,6 +285,9 @@ def rule_lcg_table(ctx):
         probs.append("constants are not (c, d) integer pairs")
       if not (isinstance(w_, int) and w_ > 0 and w_ & (w_ - 1) == 0):
         probs.append("w is not a power of two")
+      elif ent.get("normalized") in wmode and w_ != wmode[ent.get("normalized")]:
+        probs.append("w = %d, while the other %d models of this kind were precomputed for w = 2^%d: the constants do not fit this weight" % (
+            w_, len(wvals[ent.get("normalized")]) - 1, wmode[ent.get("normalized")].bit_length() - 1))
       cname = ent["curve"].split(".")[-1]
       if curves.get(cname) != "curve":
         probs.append("curve %s is not a supported prime-field curve of CURVE_FACTORY" % cname)
